@@ -246,7 +246,16 @@ pub fn extreme_model(r: &mut Rng) -> (Model, Vec<VarDecl>) {
     let mut cons = vec![];
     let mut obj = Exp::Variable("x".into());
     let mut opt = if r.chance(1, 2) { OptimizationType::Min } else { OptimizationType::Max };
-    match r.below(5) {
+    match r.below(6) {
+        5 => {
+            // a TINY negative scale (2^-20, below the 1e-5 float tolerance) on the non-affine term, in the direction
+            // that needs the exact encoding after the sign flip
+            opt = if is_max { OptimizationType::Min } else { OptimizationType::Max };
+            let tiny = -(0.5f64.powi(20));
+            let scaled = if r.chance(1, 2) { Exp::BinOp(BinOp::Mul, Box::new(Exp::Number(tiny)), Box::new(subject)) }
+                         else { Exp::BinOp(BinOp::Div, Box::new(subject), Box::new(Exp::Number(1.0 / tiny))) };
+            obj = Exp::BinOp(BinOp::Add, Box::new(scaled), Box::new(Exp::BinOp(BinOp::Mul, Box::new(Exp::Number(tiny)), Box::new(Exp::Variable("y".into())))));
+        }
         0 => cons.push(Constraint::new(subject, Comparison::Equal, Exp::Number(k), "t".into())),
         1 => cons.push(Constraint::new(subject, if is_max { Comparison::GreaterOrEqual } else { Comparison::LessOrEqual }, Exp::Number(k), "".into())),
         2 => cons.push(Constraint::new(subject, if is_max { Comparison::LessOrEqual } else { Comparison::GreaterOrEqual }, Exp::Number(k), "".into())),
